@@ -276,6 +276,8 @@ def option_models():
     add("const-assign-scalar", "  Real x;\n  Real z;\n  Real w;\n", "  x = 3;\n  0 = z;\n  w = x + z + time;\n")
     add("dep-values", "  parameter Real p = 2;\n  parameter Real q = 3 * p;\n  constant Real k = 4;\n  constant Real k2 = k * 2;\n"
         "  Real x(max = q, min = -2 * p);\n  Real y(nominal = q + 1);\n", "  x = q * time + k2;\n  der(y) = p * x - k;\n")
+    add("dep-params", "  parameter Real p = 2;\n  parameter Real q = 3 * p;\n  parameter Real r = q - p;\n  constant Real k = 4;\n"
+        "  Real x(max = q, min = -2 * r);\n  Real y(nominal = q + 1);\n", "  x = q * time + k;\n  der(y) = r * x - k;\n")
     add("alias-chain", "  Real a, b, c;\n  Real v[2], w[2];\n  input Real u;\n", "  a = b;\n  c = -a;\n  b = u * time;\n  v = w;\n"
         "  for i in 1:2 loop\n    w[i] = i * u;\n  end for;\n")
     return ms
@@ -664,12 +666,29 @@ def main():
                      "if-branches, next to a loop), whole-matrix equations between equally shaped (square / non-square) matrices incl. transposes, matrix "
                      "products, slices, matrix-valued functions, rows/columns of square matrices inside loops, functions with an if-statement "
                      "(or/and/not conditions whose 0/1 encoding exceeds 1, elseif chains, several targets, nested, Boolean locals and arguments; "
-                     "inlined and not inlined), if-equations, delays; all 8 configurations; all inputs unbounded reals. "
+                     "inlined and not inlined), if-equations, delays; "
+                     f"variable attributes (min/max/start/nominal of states, algebraic variables, inputs, arrays with each; value of a parameter) given by "
+                     f"calls of user functions ({len(ATTR_FUNS)} bodies: piecewise linear via max/min/abs/if-expression/if-statement/for-statement, affine and "
+                     f"bilinear controls; {len(ATTR_POSITIONS)} attribute positions; quick: every body at one position, one body at every position and a diagonal; "
+                     "thorough: full cross); function for-statements that subscript vectors / matrix rows with the loop variable over ranges "
+                     f"{FUN_RANGE_RANGES[args.tier]} ({len(FUN_RANGE_BODIES)} bodies incl. Horner, offset and mirrored subscripts, two arrays, two dependent "
+                     f"statements; called plainly, inside a for-equation, in an initial equation, twice); sums/differences/products/max of conditional terms "
+                     f"with a zero branch ({len(GUARD_FORMS)} forms: unrelated / complementary / equal conditions, zero then- or else-branch, nested, elseif) as "
+                     "equation, in a for-equation, initial equation, function body, with function-call terms; "
+                     "all 8 configurations; all inputs unbounded reals. "
+                     f"Other compiler options held fixed while the three are toggled: defaults for every model; expand_vectors=True for {cov.get('programs@ev', 0)} models "
+                     "(all guarded-sum models, one equation per operator of the C11 operator list, representatives of every other family, the repo models)"
+                     + (f"; thorough only: each of {sorted(_SIMP)} (detect_aliases, replace_*_expressions, eliminate_constant_assignments, replace_*_values, "
+                        "resolve_parameter_values, factor_and_simplify_equations, reduce_affine_expression) alone and together with expand_vectors on the "
+                        "representatives, the repo models and models with array-literal constants/parameters, dependent parameter values, constant "
+                        "assignments and alias chains" if args.tier == "thorough" else "") + ". "
                      f"Edit scripts: {len(SCRIPTS) + (len(SCRIPTS_THOROUGH) if args.tier == 'thorough' else 0)} read/edit/read sequences over the public Model API "
                      f"(ops {sorted(OPS)}) on {len({e[0] for e in eitems})} models, every configuration driven through the same script and "
                      "compared with configuration 0 at every read point")
     rep.assumptions += ["CasADi Function.expand() is trusted (expand_mx itself calls it)", "real arithmetic; elementary functions uninterpreted; divisors non-zero",
-                        "NaN/inf attribute defaults are compared as opaque constants"]
+                        "NaN/inf attribute defaults are compared as opaque constants",
+                        "under the thorough-tier simplification option sets attribute values are compared as numbers (1 == 1.0, a symbol-free MX by its "
+                        "value); under the default options and expand_vectors they are compared by repr as before"]
     if cov.get("configurations", 0) == 0:
         rep.harness_error("no configuration compared")
     if cov.get("edit_script_configurations", 0) == 0:
